@@ -435,15 +435,13 @@ func (m *Muxer) Start() error {
 func (m *Muxer) Close() {
 	m.mutex.Lock()
 	m.closed = true
+	for _, stream := range m.streams {
+		stream.close()
+	}
 	m.mutex.Unlock()
 	verifHook("close:unlocked")
 
 	m.cond.Broadcast()
-	verifHook("close:broadcast-done")
-
-	for _, stream := range m.streams {
-		stream.close()
-	}
 }
 
 // WriteAV1 writes an AV1 temporal unit.
